@@ -111,7 +111,7 @@ def gen_case(rng):
             "calls": [{"n": n, "dur": [rng.choice([0.0, 0.01, 0.3, 1.0]) for _ in range(n)],
                        "nest": gen_nest(rng, 1, fl, fl == "T" and resolve(n_jobs, c) not in ("ValueError", 1)) if fl != "G" else None}],
             "strategy": ds.draw_strategy(rng), "sched_seed": rng.randrange(1 << 31)}
-    if rng.random() < 0.2 and not case["managed"]:
+    if rng.random() < 0.2 and not case["managed"] and fl != "G":      # (the generic stub backend sizes itself once, by its own rule)
         # the machine changes while the process lives (affinity mask narrowed or widened, another LOKY_MAX_CPU_COUNT ...):
         # a second call must resolve n_jobs on the machine as it is then
         case["machine2"] = gen_machine(rng)
@@ -338,7 +338,7 @@ def run_e4(case):
             if r_["exp"] > 1 and W4["alive_hi"].get(c, 0) > r_["exp"]:     # (n_jobs=1 runs in the caller and leaves idle workers alone)
                 verdict = V("too_many_workers", "loky call %d of history %s: %d worker processes alive while its tasks ran, n_jobs "
                             "resolves to %d" % (c, [(st["kind"], st["n_jobs"]) for st in case["steps"]], W4["alive_hi"][c], r_["exp"]),
-                            tier="real_loky_executor")
+                            tier="real_loky_executor", after_other_object_resized_the_executor=(r_["kind"] == "with_after_intruder"))
                 break
     res = {"verdict": verdict, "digest": s.h.hexdigest()[:24], "shape": s.hs.hexdigest()[:16], "steps": s.steps,
            "switches": s.switches, "sim_time": round(s.now, 3),
